@@ -313,6 +313,9 @@ struct SCase {
     second_shutdown: bool,
     tick_budget: usize,
     real_blocking: bool,
+    /// the records are logged by a second thread while this one calls flush(); after the join
+    /// flush() is called again and the output is read (instead of the terminal operation)
+    flush_race: bool,
 }
 fn sched_cases() -> Vec<SCase> {
     let c = |name, mode, out, writes, term, second_shutdown, tick_budget, real_blocking| SCase {
@@ -324,8 +327,9 @@ fn sched_cases() -> Vec<SCase> {
         second_shutdown,
         tick_budget,
         real_blocking,
+        flush_race: false,
     };
-    vec![
+    let mut v = vec![
         c("async-file/shutdown", ModeK::Async(1, 16, 0), OutK::File, 3, Term::Shutdown, false, 0, false),
         c("async-file/drop", ModeK::Async(1, 16, 0), OutK::File, 3, Term::DropLast, false, 0, false),
         c("async-file-rotation/shutdown", ModeK::Async(1, 16, 0), OutK::FileNum, 3, Term::Shutdown, false, 0, false),
@@ -337,7 +341,17 @@ fn sched_cases() -> Vec<SCase> {
         c("flw-direct/async+async-flusher/shutdown", ModeK::Async(1, 16, 1), OutK::File, 2, Term::Shutdown, false, 2, false),
         c("async-file/two-shutdowns", ModeK::Async(1, 16, 0), OutK::File, 2, Term::Shutdown, true, 0, true),
         c("async-stdout/two-shutdowns", ModeK::Async(1, 16, 0), OutK::Stdout, 2, Term::Shutdown, true, 0, true),
-    ]
+    ];
+    for (name, mode, out) in [
+        ("buffered-file/flush-vs-write", ModeK::BufDont(CAP), OutK::File),
+        ("buffered-file-rotation/flush-vs-write", ModeK::BufDont(CAP), OutK::FileNum),
+        ("buffered-stdout/flush-vs-write", ModeK::BufDont(CAP), OutK::Stdout),
+    ] {
+        let mut x = c(name, mode, out, 2, Term::Shutdown, false, 0, false);
+        x.flush_race = true;
+        v.push(x);
+    }
+    v
 }
 
 fn sched_cfg(sc: &SCase) -> SchedCfg {
@@ -393,6 +407,36 @@ fn sched_body(sc: SCase) -> Arc<dyn Fn(&Arc<Sched>) -> SObs + Send + Sync> {
         let (w, logger, handle) = build(sc.mode, sc.out, true).map_err(|e| ("build-error".to_string(), e))?;
         let w = Arc::new(w);
         let mut accepted: Vec<Vec<u8>> = Vec::new();
+        if sc.flush_race {
+            let logger: Arc<Box<dyn Log>> = Arc::new(logger);
+            for i in 0..sc.writes {
+                let msg = lg::payload(0, i, 6);
+                let mut line = msg.into_bytes();
+                line.push(b'\n');
+                accepted.push(line);
+            }
+            let l2 = Arc::clone(&logger);
+            let n = sc.writes;
+            let jh = s.spawn("writer", move || {
+                for i in 0..n {
+                    lg::log_info(&**l2, &lg::payload(0, i, 6));
+                }
+            });
+            // (a scheduling point of the harness itself: flush() may begin at any moment of the
+            // other thread's log calls, also when flush() has no hook of its own on its path)
+            s.sync_op(flexi_logger::verif_hooks::Op::Point("harness_before_flush"));
+            handle.flush();
+            s.join(jh);
+            // every log call has completed: after this flush the records must be in the output
+            handle.flush();
+            let res = expect_all(&w, &accepted, "missing-after-flush", "when flush() returned (all log calls had completed; an earlier flush() ran concurrently with them)").map_err(|f| (f.clause.to_string(), f.detail));
+            handle.shutdown();
+            drop(logger);
+            if let Ok(w) = Arc::try_unwrap(w) {
+                w.close();
+            }
+            return res;
+        }
         for i in 0..sc.writes {
             let msg = lg::payload(0, i, if i == 1 { CAP + 4 } else { 6 });
             let mut line = msg.clone().into_bytes();
